@@ -57,10 +57,48 @@ package mqtt
 //@ ensures[C06] hastype(err, *BigMessage) ==> unbox(err, *BigMessage).Size == vdec(rx_stream(c.bufr), old(rx_pos(c.bufr)) + 1, rx_pos(c.bufr) - old(rx_pos(c.bufr)) - 1)
 //@ ensures[C06,id=big_full_buffer] hastype(err, *BigMessage) ==> len(c.peek) == rx_size(c.bufr) && forall(k, 0, len(c.peek), c.peek[k] == rx_stream(c.bufr)[rx_pos(c.bufr) + k])
 
+// Content invariants of the token channels: every sender is obliged to them,
+// every receiver may rely on them.
+//@ chaninv mqtt.Client.writeSem(v): v != nil
+//@ chaninv mqtt.Client.onlineSig(v): v != nil
+//@ chaninv mqtt.Client.offlineSig(v): v != nil
+
+// nonNilIsAny mirrors errors.Is over a list of targets.
+//@ func mqtt.nonNilIsAny -> ok
+//@ unverified
+//@ pure
+//@ requires err != nil
+//@ ensures ok == exists(i, 0, len(matches), Is(err, matches[i]))
+
+// Signal channels: singleton holders.
+//@ func mqtt.(*Client).Online -> ch
+//@ requires c.onlineSig != nil && !closed(c.onlineSig) && cap(c.onlineSig) == 1
+//@ ensures !closed(c.onlineSig) && cap(c.onlineSig) == 1
+
+// lockWrite: takes the write token. nil error: the token (a live connection) is held.
+//@ func mqtt.(*Client).lockWrite -> conn, err
+//@ requires c.writeSem != nil && cap(c.writeSem) == 1 && c.onlineSig != nil && !closed(c.onlineSig) && cap(c.onlineSig) == 1 && c.ctx != nil
+//@ requires closed(c.writeSem) ==> len(c.writeSem) == 0
+//@ loop 1: invariant cap(c.writeSem) == 1 && !closed(c.onlineSig) && cap(c.onlineSig) == 1 && (closed(c.writeSem) ==> len(c.writeSem) == 0)
+//@ loop 1: invariant forall(k, wire_len(k) == old(wire_len(k)))
+//@ ensures[C08,C14,C18] err == nil ==> conn != nil && conn != boxed(connSignal, 0) && conn != boxed(connSignal, 1) && len(c.writeSem) == 0 && !closed(c.writeSem)
+//@ ensures[C14,C18] err != nil ==> conn == nil && (err == ErrCanceled || err == ErrClosed || err == ErrDown)
+//@ ensures[C18] err == ErrDown ==> len(c.writeSem) == 1 && qat(c.writeSem, 0) == boxed(connSignal, 1)
+//@ ensures[C14] forall(k, wire_len(k) == old(wire_len(k)))
+//@ ensures cap(c.writeSem) == 1 && (closed(c.writeSem) ==> len(c.writeSem) == 0)
+
 // write: the packet goes to the connection found in the write semaphore, or nowhere.
 //@ func mqtt.(*Client).write -> err
-//@ unverified
-//@ modifies wire, wire_len, wclosed, wdl, chanstate(c.writeSem)
+//@ requires c.writeSem != nil && cap(c.writeSem) == 1 && c.onlineSig != nil && !closed(c.onlineSig) && cap(c.onlineSig) == 1 && c.ctx != nil
+//@ requires closed(c.writeSem) ==> len(c.writeSem) == 0
+//@ modifies wire, wire_len, wclosed, wdl, chanstate(c.writeSem), chanstate(c.onlineSig)
+//@ ensures[C08,C14] err == nil ==> len(c.writeSem) == 1 && !closed(c.writeSem) && qat(c.writeSem, 0) != boxed(connSignal, 0) && qat(c.writeSem, 0) != boxed(connSignal, 1) && qat(c.writeSem, 0) != nil
+//@ ensures[C08,C14] err == nil ==> forall(w, w == qat(c.writeSem, 0) ==> wire_len(w) == old(wire_len(w)) + len(p) && forall(k, 0, len(p), wire(w)[old(wire_len(w)) + k] == p[k]) && forall(k, 0, old(wire_len(w)), wire(w)[k] == old(wire(w))[k]))
+//@ ensures[C08,C14] err == nil ==> forall(k, k != qat(c.writeSem, 0) ==> wire_len(k) == old(wire_len(k)))
+//@ ensures[C08,C10,C14] err != nil && err != ErrCanceled && err != ErrClosed && err != ErrDown ==> Is(err, ErrSubmit) && len(c.writeSem) == 1 && qat(c.writeSem, 0) == boxed(connSignal, 0)
+//@ ensures[C14] err == ErrCanceled || err == ErrClosed || err == ErrDown ==> forall(k, wire_len(k) == old(wire_len(k)))
+//@ ensures cap(c.writeSem) == 1 && (closed(c.writeSem) ==> len(c.writeSem) == 0)
+//@ ensures forall(k, 0, len(p), p[k] == old(p[k]))
 
 //@ func mqtt.(*Client).onPUBACK -> err
 //@ requires c.persistence != nil && c.atLeastOnce.queue != nil
